@@ -12,6 +12,7 @@ case "${SEEDROUND:-}" in
   r3) case $v in a) dv=e;; b) dv=f;; esac;;
   r4) case $v in a) dv=g;; b) dv=h;; esac;;
   r5) case $v in a) dv=i;; b) dv=j;; esac;;
+  r6) case $v in a) dv=k;; b) dv=l;; esac;;
 esac
 src=/tmp/seed/$id${SEEDROUND:-}.out/$v
 dst=/verif/seeded/$id$dv
